@@ -133,6 +133,7 @@ let rec run toks =
   | ["staticinit"] -> String.concat "|" (List.map (fun l -> run (split_on ' ' l)) static_lines)
   | ["cteq"; a; b] -> bool_s (ct_equals (bx a) (bx b))
   | ["spec.eq"; a; b] -> bool_s (bx a = bx b)
+  | ["cteqfill"; la; fa; lb; fb] | ["spec.eqfill"; la; fa; lb; fb] -> bool_s (la = lb && (fa = fb || la = "0"))      (* C09_exact on constant-filled inputs *)
   | ["cteqbig"; la; lb] | ["spec.eqbig"; la; lb] -> bool_s (la = lb)     (* C09_exact on two all-zero inputs: equal iff the lengths are equal *)
   | ["sha"; t; m] -> hx (h_oneshot t (bx m))
   | ["shapinned"; m] -> hx (sha512_oneshot_pinned (bx m))
@@ -199,6 +200,14 @@ let rec run toks =
       "ok " ^ bool_s (tk = code c || (c <> maxc && tk = code (N.add c (n_of_int 1))) || (c <> N0 && tk = code (N.sub c (n_of_int 1))))
   | ["totpvalidnow"; t; tok; k; p; d; now; err; _step] ->
       res_b (is_totp_token_valid_now (hash_of t) (zd tok) (bx k) (zd p) (zd d) (zd now, err <> "0"))
+  | ["pbkdf2end"; t; p; s; c; dk; k] | ["spec.pbkdf2end"; t; p; s; c; dk; k] ->
+      (* the last k bytes of a dk-byte output: T_(l-1) || first r bytes of T_l with l = ceil(dk/hLen), r = dk - (l-1) hLen  (PBKDF2_spec; C04_block) *)
+      let dk = int_of_string dk and k = int_of_string k in
+      let h = (match t with "sha1" -> 20 | "sha256" -> 32 | _ -> 64) in
+      let l = (dk + h - 1) / h in let r = dk - (l - 1) * h in
+      let f i = hx (pbkdf2_F (hash_of t) (bx p) (bx s) (nat_of_int (int_of_string c)) (nd (string_of_int i))) in
+      let tl = (if l >= 2 then f (l - 1) else "") ^ String.sub (f l) 0 (2 * r) in
+      "ok " ^ String.sub tl (String.length tl - 2 * k) (2 * k)
   | ["pbkdf2tail"; t; p; s; c; nblocks; k] | ["spec.pbkdf2tail"; t; p; s; c; nblocks; k] ->
       (* the last k blocks of an output of nblocks whole blocks: T_i = F(P, S, c, i) (PBKDF2_spec is their concatenation; model = spec by C04_rfc8018) *)
       let nb = int_of_string nblocks and k = int_of_string k in
